@@ -23,7 +23,7 @@ func init() {
 			"R3 operator/punctuation recognition (for every assignment of an operator kind the matched bytes equal the kind's spelling and the number of bytes skipped equals its length; the set of kinds equals the reference list; longest match first), " +
 			"R4 comment openers/terminators, R5 the dot-identifier trigger set, R6 character classifiers of package char. " +
 			"Decides: table agreement. Does not decide: the number automaton, the prefix x quote matrix, rejection of exactly the invalid inputs (control flow over bytes).",
-		Rules: []ruleFn{ruleC14R1, ruleC14R2, ruleC14R3, ruleC14R4, ruleC14R5, ruleC14R6},
+		Rules: []ruleFn{ruleC14R1, ruleC14R2, ruleC14R3, ruleC14R4, ruleC14R5, ruleC14R6, ruleC14R7},
 	})
 }
 
@@ -412,7 +412,7 @@ func checkNumericEscape(w *World, r *Report, rule, construct string, cc *ast.Cas
 	var parseArgs [][2]int64
 	var advances []int64
 	var sliceWidths []string
-	surrogate := false
+	surrogate, surrLo, surrHi := false, false, false
 	maxCP := false
 	unicodeGuard := false
 	sizeVals := map[int64]bool{}
@@ -451,12 +451,13 @@ func checkNumericEscape(w *World, r *Report, rule, construct string, cc *ast.Cas
 				}
 			}
 		case *ast.BinaryExpr:
-			if v, ok := constI(info, n.X); ok && v == 0xD800 {
-				surrogate = true
+			if v, ok := constI(info, n.X); ok && v == 0xD800 && n.Op == token.LEQ {
+				surrLo = true
 			}
-			if v, ok := constI(info, n.Y); ok && v == 0xDFFF {
-				surrogate = surrogate && true
+			if v, ok := constI(info, n.Y); ok && v == 0xDFFF && n.Op == token.LEQ {
+				surrHi = true
 			}
+			surrogate = surrLo && surrHi
 			if v, ok := constI(info, n.X); ok && v == 0x10FFFF && n.Op == token.LSS {
 				maxCP = true
 			}
@@ -1165,6 +1166,179 @@ func ruleC14R6(w *World, r *Report) {
 			r.bad(rule, "char."+name, w.pos(fn.Pos()), "differs from the specification's class on bytes "+strings.Join(diff, " "))
 		default:
 			r.ok(rule, "char."+name, w.pos(fn.Pos()), "agrees with the specification on all 256 byte values")
+		}
+	}
+}
+
+// ruleC14R7: the dot-identifier reader and the raw-literal arm.
+func ruleC14R7(w *World, r *Report) {
+	const rule = "C14/R7"
+	r.rule(rule, "after '.', the field-token reader turns every run of identifier-part characters (letters, digits, '_' — keywords and digits included) into one <ident> token whose name is exactly that run; in raw literals a backslash keeps itself and the next character and both are skipped, so an escaped quote does not end the literal; token.IsKeyword is a plain lookup of char.ToUpper(s) in KeywordsMap", 3)
+	// --- consumeFieldToken ---
+	cf := w.fn(w.Mem, "(*Lexer).consumeFieldToken")
+	isPart := w.fn(w.Char, "IsIdentPart")
+	if cf == nil || isPart == nil {
+		r.errorf("(*Lexer).consumeFieldToken / char.IsIdentPart not found")
+	} else {
+		// every classifier call in the function is char.IsIdentPart on peek(i); the ident arm sets Kind = <ident>
+		// and AsString = Buffer[pos : pos+i] and skips i
+		var classifiers []string
+		kindIdent, skipN, asString := false, false, false
+		for _, b := range cf.Blocks {
+			for _, in := range b.Instrs {
+				switch x := in.(type) {
+				case *ssa.Call:
+					c := x.Call.StaticCallee()
+					if c == nil {
+						continue
+					}
+					if c.Pkg != nil && c.Pkg.Pkg.Path() == modRoot+"/char" {
+						classifiers = append(classifiers, c.Name())
+					}
+					if c.Name() == "skipN" {
+						skipN = true
+					}
+				case *ssa.Store:
+					if fa, ok := x.Addr.(*ssa.FieldAddr); ok {
+						if _, isCur := w.curTokenAddr(fa.X); isCur {
+							switch fieldAddrName(fa) {
+							case "Kind":
+								if k, ok := constString(x.Val); ok && k == "<ident>" {
+									kindIdent = true
+								}
+							case "AsString":
+								if sl, ok := x.Val.(*ssa.Slice); ok {
+									lo, hi := w.posLoadOf(sl.Low), sl.High
+									if bo, ok := hi.(*ssa.BinOp); ok && bo.Op == token.ADD && lo != nil && w.posLoadOf(bo.X) != nil {
+										asString = true
+									}
+								}
+							}
+						}
+					}
+				}
+			}
+		}
+		sort.Strings(classifiers)
+		okCls := len(classifiers) >= 2
+		for _, c := range classifiers {
+			if c != "IsIdentPart" {
+				okCls = false
+			}
+		}
+		if okCls && kindIdent && skipN && asString {
+			r.ok(rule, "consumeFieldToken", w.pos(cf.Pos()), "identifier-part run -> <ident> with AsString = Buffer[pos:pos+i], skipN(i)")
+		} else {
+			r.bad(rule, "consumeFieldToken", w.pos(cf.Pos()), fmt.Sprintf("the field-token reader does not accept exactly the identifier-part runs (classifiers used: %v, Kind=<ident>: %v, AsString slice: %v, skipN: %v): after '.', a keyword or a digit run is no longer an identifier", classifiers, kindIdent, asString, skipN))
+		}
+	}
+	// --- raw arm of consumeQuotedContent ---
+	fd := findFuncDecl(w.Mem, "Lexer", "consumeQuotedContent")
+	if fd == nil {
+		r.errorf("(*Lexer).consumeQuotedContent not found")
+	} else {
+		info := w.Mem.TypesInfo
+		found := false
+		ast.Inspect(fd.Body, func(n ast.Node) bool {
+			ifs, ok := n.(*ast.IfStmt)
+			if !ok {
+				return true
+			}
+			id, ok := ifs.Cond.(*ast.Ident)
+			if !ok {
+				return true
+			}
+			v, ok := info.Uses[id].(*types.Var)
+			if !ok || v.Name() != "raw" {
+				return true
+			}
+			found = true
+			// body: content = append(content, '\\', c); continue — and c was read with the cursor advanced past it
+			okAppend, okContinue := false, false
+			for _, st := range ifs.Body.List {
+				switch s := st.(type) {
+				case *ast.AssignStmt:
+					if call, ok := s.Rhs[0].(*ast.CallExpr); ok && len(call.Args) == 3 {
+						if b, ok := constByte(info, call.Args[1]); ok && b == '\\' {
+							if _, isId := call.Args[2].(*ast.Ident); isId {
+								okAppend = true
+							}
+						}
+					}
+				case *ast.BranchStmt:
+					if s.Tok == token.CONTINUE {
+						okContinue = true
+					}
+				}
+			}
+			// the two statements before the `if raw`: c := l.peek(i); i++
+			advanced := false
+			ast.Inspect(fd.Body, func(m ast.Node) bool {
+				blk, ok := m.(*ast.BlockStmt)
+				if !ok {
+					return true
+				}
+				for k, st := range blk.List {
+					if st == ast.Stmt(ifs) && k >= 2 {
+						if inc, ok := blk.List[k-1].(*ast.IncDecStmt); ok && inc.Tok == token.INC {
+							if as, ok := blk.List[k-2].(*ast.AssignStmt); ok && strings.Contains(exprText(w.Fset, as.Rhs[0]), "peek(") {
+								advanced = true
+							}
+						}
+					}
+				}
+				return true
+			})
+			if okAppend && okContinue && advanced {
+				r.ok(rule, "raw literal arm", w.pos(ifs.Pos()), "backslash + next character are kept verbatim and skipped together")
+			} else {
+				r.bad(rule, "raw literal arm", w.pos(ifs.Pos()), fmt.Sprintf("in a raw literal the character after a backslash is not consumed together with it (append of both: %v, continue: %v, cursor past the escaped character: %v): r'\\'' ends at the escaped quote", okAppend, okContinue, advanced))
+			}
+			return false
+		})
+		if !found {
+			r.bad(rule, "raw literal arm", w.pos(fd.Pos()), "consumeQuotedContent has no `if raw` arm")
+		}
+	}
+	// --- IsKeyword ---
+	ik := w.fn(w.Tok, "IsKeyword")
+	if ik == nil {
+		r.errorf("token.IsKeyword not found")
+		return
+	}
+	plain := len(ik.Blocks) == 1
+	var lk *ssa.Lookup
+	for _, b := range ik.Blocks {
+		for _, in := range b.Instrs {
+			if l, ok := in.(*ssa.Lookup); ok {
+				lk = l
+			}
+		}
+	}
+	okShape := plain && lk != nil && w.derivesFromCall(lk.Index, modRoot+"/char", "ToUpper")
+	if okShape {
+		if call := stripToCall(lk.Index); call == nil || call.Call.Args[0] != ssa.Value(ik.Params[0]) {
+			okShape = false
+		}
+	}
+	if okShape {
+		r.ok(rule, "token.IsKeyword", w.pos(ik.Pos()), "KeywordsMap[TokenKind(char.ToUpper(s))] without any other condition")
+	} else {
+		r.bad(rule, "token.IsKeyword", w.pos(ik.Pos()), "IsKeyword is not a plain lookup of char.ToUpper(s) in KeywordsMap (extra conditions, length limits or another table): QuoteSQLIdent and the lexer can disagree about what is reserved")
+	}
+}
+
+func stripToCall(v ssa.Value) *ssa.Call {
+	for {
+		switch x := v.(type) {
+		case *ssa.ChangeType:
+			v = x.X
+		case *ssa.Convert:
+			v = x.X
+		case *ssa.Call:
+			return x
+		default:
+			return nil
 		}
 	}
 }
